@@ -109,6 +109,28 @@ def gen_history(r, states, nops, domain):
             lv.discard(i)
             mapped[s].pop(i, None)
             ops.append([s, 'del_key', i, None])
+        elif op == 'iterate' and lv and dt != 'mapper' and r.random() < 0.5:
+            # a walk consumed step by step with other calls in between - the expiry loop
+            # `for key, value, is_set in store.iterate(): if expired: store.del_key(key)`
+            plan = []
+            for step in range(r.randint(1, len(lv) + 1)):
+                for _ in range(r.choice([0, 1, 1, 2])):
+                    if not lv:
+                        break
+                    sub = r.choice(['del', 'del', 'set', 'readd', 'add'])
+                    if sub == 'del':
+                        i = r.choice(sorted(lv))
+                        lv.discard(i)
+                        plan.append([step, 'del_key', i, None])
+                    elif sub == 'set':
+                        plan.append([step, 'set', r.choice(sorted(lv)), rand_value(r, dt)])
+                    elif sub == 'readd':
+                        plan.append([step, 'add_key', r.choice(sorted(lv)), None])
+                    else:
+                        i = r.choice(dom)
+                        lv.add(i)
+                        plan.append([step, 'add_key', i, None])
+            ops.append([s, 'walk', None, plan])
         elif op == 'iterate':
             ops.append([s, 'iterate', None, None])
         elif op == 'add_map':
@@ -137,6 +159,15 @@ def valid_history(states, ops):
             mapped[s][i] = []
         elif op == 'iterate':
             pass
+        elif op == 'walk':
+            for _, sub, j, _a in arg:
+                if sub == 'add_key':
+                    live[s].add(j)
+                    mapped[s][j] = []
+                elif j not in live[s]:
+                    return False
+                elif sub == 'del_key':
+                    live[s].discard(j)
         elif i not in live[s]:
             return False
         elif op == 'del_key':
@@ -180,12 +211,12 @@ class C14(Check):
                    'del_map is not part of the property (the quantifier does not list it) and is only exercised through group_by in (b)']
     ANCHORS = ['rxsci/state/memory_store.py', 'rxsci/state/store.py']
     REQUIRED_TAGS = ['dtype=int', 'dtype=uint', 'dtype=float', 'dtype=bool', 'dtype=obj', 'dtype=mapper', 'default', 'no-default',
-                     'direct', 'manager', 'sparse', 'descending', 'pipeline', 'wide']
-    REQUIRED_OBSERVED = ['store.add_key', 'store.set', 'store.get', 'store.del_key', 'store.iterate',
+                     'direct', 'manager', 'sparse', 'descending', 'pipeline', 'wide', 'stepwise-walk']
+    REQUIRED_OBSERVED = ['walk_steps', 'untouched_slots_checked_in_walks', 'store.add_key', 'store.set', 'store.get', 'store.del_key', 'store.iterate',
                          'store.add_map', 'store.get_map', 'store.iterate_map', 'slot_rereads']
 
     def generate(self, rng, tier, shard, nshards):
-        n = 900 if tier == 'quick' else 10 ** 7
+        n = 800 if tier == 'quick' else 10 ** 7
         dts = list(DTYPES)
         doms = list(DOMAINS)
         pnames = sorted(_pipelines())
@@ -292,6 +323,9 @@ class C14(Check):
                     call(s, 'get', key)
                 elif op == 'iterate':
                     list(call(s, 'iterate'))
+                elif op == 'walk':
+                    if self._walk(out, stores[s], s, arg, call, deleted):
+                        return
                 elif op == 'add_map':
                     call(s, 'add_map', key, decode_key(arg))
                 elif op == 'get_map':
@@ -308,6 +342,66 @@ class C14(Check):
             maxlive = max(maxlive, sum(len(st.m) for st in stores))
         if maxlive >= 3 and readded:
             out.nontrivial = True
+
+    def _walk(self, out, st, s, plan, call, deleted):
+        """iterate() consumed one step at a time with other calls in between.  Judged: every slot that is live and
+        untouched from the first to the last step is enumerated exactly once, with its value; nothing that was
+        never live during the walk is enumerated; no key twice.  (What a walk shows of the slots that are changed
+        while it runs is not specified and not judged.)"""
+        from rxsci.state.memory_store import MemoryStore
+        out.tags.append('stepwise-walk')
+        start = {i: (v[0], v[1]) for i, v in st.m.items()}
+        ever_live = set(start)
+        touched = set()
+        it = MemoryStore.iterate(st)            # the real, lazy generator (the shadow's own iterate materialises a list)
+        got = []
+        step = 0
+        done = False
+        pending = list(plan)
+        while True:
+            while pending and (done or pending[0][0] <= step):
+                _, sub, j, a = pending.pop(0)
+                key = (j, (0,))
+                touched.add(j)
+                if sub == 'add_key':
+                    ever_live.add(j)
+                    call(s, 'add_key', key)
+                elif sub == 'del_key':
+                    call(s, 'del_key', key)
+                    deleted.add((s, j))
+                else:
+                    call(s, 'set', key, a)
+            if done:
+                break
+            try:
+                got.append(next(it))
+            except StopIteration:
+                done = True
+                if not pending:
+                    break
+            step += 1
+        out.observed['walk_steps'] += len(got)
+        keys = [g[0][0] for g in got]
+        if len(set(keys)) != len(keys):
+            out.fail('walk-enumerates-a-key-twice', keys=keys, plan=plan)
+            return True
+        ghost = [k for k in keys if k not in ever_live]
+        if ghost:
+            out.fail('walk-enumerates-a-slot-that-was-never-live', ghosts=ghost, plan=plan)
+            return True
+        for i, (is_set, v) in sorted(start.items()):
+            if i in touched:
+                continue
+            hit = [g for g in got if g[0][0] == i]
+            if not hit:
+                out.fail('walk-misses-a-live-untouched-slot', index=i, enumerated=keys, live_at_start=sorted(start), touched_during_the_walk=sorted(touched), plan=plan)
+                return True
+            k, rv, rset = hit[0]
+            if bool(rset) != is_set or (is_set and not shadow_store.same(st.data_type, v, shadow_store.coerce(st.data_type, rv))):
+                out.fail('walk-shows-a-wrong-value-for-an-untouched-slot', index=i, want=repr((v, is_set)), got=repr((rv, rset)), plan=plan)
+                return True
+        out.observed['untouched_slots_checked_in_walks'] += len([i for i in start if i not in touched])
+        return False
 
     def shrink(self, case):
         if case['kind'] != 'history':
